@@ -16,7 +16,7 @@ import (
 
 // Plan is the schedule part of a script.
 type Plan struct {
-	Strategy string `json:"strategy"`          // rw | pct | rub | replay
+	Strategy string `json:"strategy"`          // rw | pct | rub | stall | replay
 	Seed     uint64 `json:"seed,omitempty"`    // for rw / pct / rub
 	Choices  []int  `json:"choices,omitempty"` // replay: index among the enabled tasks at each decision
 }
@@ -30,6 +30,8 @@ type chooser struct {
 	change  []int // pct: steps at which the running task is demoted
 	preempt map[int]bool
 	Taken   []int // recorded choices (index among enabled)
+	// stall: one task is held at its stallAt-th turn until nobody else can run (a slow / stalled thread)
+	victim, stallAt, turns int
 }
 
 // NewChooser builds the chooser for a plan with n tasks and an estimated run length.
@@ -44,6 +46,9 @@ func NewChooser(p Plan, n int, estSteps int) *chooser {
 		for k := 1 + c.r.Intn(3); k > 0; k-- {
 			c.change = append(c.change, c.r.Intn(estSteps+1))
 		}
+	case "stall":
+		c.victim = c.r.Intn(n)
+		c.stallAt = c.r.Intn(40)
 	case "rub":
 		c.preempt = map[int]bool{}
 		for k := 1 + c.r.Intn(4); k > 0; k-- {
@@ -87,6 +92,14 @@ func (c *chooser) Choose(step int, enabled []int, sites []int) int {
 			if c.prio[t] > best {
 				best, k = c.prio[t], i
 			}
+		}
+	case "stall":
+		k = c.r.Intn(len(enabled))
+		if c.turns >= c.stallAt && enabled[k] == c.victim { // the victim waits as long as anybody else can run
+			k = (k + 1 + c.r.Intn(len(enabled)-1)) % len(enabled)
+		}
+		if enabled[k] == c.victim {
+			c.turns++
 		}
 	case "rub":
 		if i := indexOf(enabled, c.last); i >= 0 && !c.preempt[step] {
